@@ -3,6 +3,8 @@ package main
 // Contract use / verify machinery, intrinsics, pure evaluation, obligations.
 
 import (
+	"crypto/sha1"
+	"sync"
 	"fmt"
 	"go/token"
 	"go/types"
@@ -147,6 +149,94 @@ func (x *Run) intrinsic(fr *Frame, st *State, fn *ssa.Function, args []Val, site
 			}
 		}
 		return single(st, Val{T: or(alts...), S: SBool}), true
+	case "NthArg", "NthRet":
+		sname, _ := x.litString(args[0].T)
+		nth, _ := litInt(args[1].T)
+		idx, _ := litInt(args[2].T)
+		k := 0
+		for _, e := range st.events {
+			if !strings.Contains(e.Name, sname) {
+				continue
+			}
+			if k == nth {
+				var r Val
+				if name == "NthArg" {
+					if idx < len(e.Args) {
+						r = e.Args[idx]
+					}
+				} else {
+					r = e.Ret
+					if r.S == "Tuple" && idx < len(r.Tup) {
+						r = r.Tup[idx]
+					}
+				}
+				want := x.d.sortOf(fn.Signature.Results().At(0).Type())
+				if r.S == want {
+					return single(st, r), true
+				}
+				if want == SIface && r.S != "" && r.S != "Tuple" {
+					return single(st, x.box(st, r, fn.Signature.Results().At(0).Type())), true
+				}
+				break
+			}
+			k++
+		}
+		return single(st, x.freshVal(st, "nonth", fn.Signature.Results().At(0).Type())), true
+	case "DynPtrTo":
+		// DynPtrTo(ret, content): ret holds a non-nil pointer to the dynamic type of content
+		c := args[1]
+		if c.Inner != nil && c.Inner.Ty != nil {
+			tag := x.d.tag(types.NewPointer(c.Inner.Ty))
+			return single(st, Val{T: and(not(eq(args[0].T, "inil")), eq(app("itag", args[0].T), fmt.Sprint(tag)), fmt.Sprintf("(> (ival %s) 0)", args[0].T)), S: SBool}), true
+		}
+		return single(st, x.freshVal(st, "dynptr", types.Typ[types.Bool])), true
+	case "CalledBefore":
+		a, _ := x.litString(args[0].T)
+		b, _ := x.litString(args[1].T)
+		ia, ib := -1, -1
+		for i, e := range st.events {
+			if ia < 0 && strings.Contains(e.Name, a) {
+				ia = i
+			}
+			if ib < 0 && strings.Contains(e.Name, b) {
+				ib = i
+			}
+		}
+		if ia >= 0 && ib >= 0 && ia < ib {
+			return single(st, Val{T: "true", S: SBool}), true
+		}
+		return single(st, Val{T: "false", S: SBool}), true
+	case "RetInt", "RetErr", "RetBool", "RetStr", "Ret":
+		s, _ := x.litString(args[0].T)
+		idx, _ := litInt(args[1].T)
+		for i := len(st.events) - 1; i >= 0; i-- {
+			e := st.events[i]
+			if strings.Contains(e.Name, s) {
+				r := e.Ret
+				if r.S == "Tuple" && idx < len(r.Tup) {
+					r = r.Tup[idx]
+				}
+				if r.S == x.d.sortOf(fn.Signature.Results().At(0).Type()) {
+					return single(st, r), true
+				}
+			}
+		}
+		return single(st, x.freshVal(st, "noret", fn.Signature.Results().At(0).Type())), true
+	case "NetDelta":
+		// NetDelta(&obj.field): net change applied to a guarded integer field inside locked regions on this path
+		a := x.addrOf(args[0])
+		if args[0].Inner != nil {
+			a = x.addrOf(*args[0].Inner)
+		}
+		if a.Kind == AField {
+			k := x.fieldArr(a.Ty, a.Field) + ":" + a.Ref
+			d := st.ghost["delta:"+k]
+			if d == "" {
+				d = "0"
+			}
+			return single(st, Val{T: d, S: SInt, Ty: types.Typ[types.Int]}), true
+		}
+		return single(st, x.freshVal(st, "nodelta", types.Typ[types.Int])), true
 	case "ResetEvents":
 		st.events = nil
 		return single(st, unit), true
@@ -305,7 +395,7 @@ func (x *Run) useContract(fr *Frame, st *State, con *Contract, args []Val, site 
 		body := implies(and(append(append([]string(nil), guards...), conds...)...), and(ens...))
 		res.assume(forall(bound, bsorts, body))
 	}
-	res.events = append(res.events, Event{Name: "call:" + con.TargetName, Args: args})
+	res.events = append(res.events, Event{Name: "call:" + con.TargetName, Args: args, Ret: ctx.results})
 	return single(res, ctx.results)
 }
 
@@ -455,8 +545,8 @@ func (x *Run) oblige(st *State, name, kind, goal string, pos token.Pos, note str
 	x.wg.Add(1)
 	go func() {
 		defer x.wg.Done()
-		r := solve(ob.body, x.timeout, true, nil)
-		if r.Status != "unsat" && r.Status != "sat" {
+		r := x.solveCached(ob.body)
+		if r.Status != "unsat" && r.Status != "sat" && false {
 			r2 := solve(ob.body, x.timeout*6, true, nil)
 			if r2.Status == "unsat" || r2.Status == "sat" {
 				r = r2
@@ -481,4 +571,28 @@ func (x *Run) pathSat(st *State) SolveResult {
 		b.WriteString("(assert " + pcPlain(c) + ")\n")
 	}
 	return solve(b.String(), x.timeout, false, nil)
+}
+
+var solveCache sync.Map
+
+// solveCached: z3-new alone first (most obligations are immediate), then the
+// three-solver race, then the race with 6x budget.
+func (x *Run) solveCached(body string) SolveResult {
+	h := sha1.Sum([]byte(body))
+	key := string(h[:])
+	if v, ok := solveCache.Load(key); ok {
+		return v.(SolveResult)
+	}
+	r := solve(body, 2, true, []string{"z3-new"})
+	if r.Status != "unsat" && r.Status != "sat" {
+		r = solve(body, x.timeout, true, nil)
+	}
+	if r.Status != "unsat" && r.Status != "sat" {
+		r2 := solve(body, x.timeout*6, true, nil)
+		if r2.Status == "unsat" || r2.Status == "sat" {
+			r = r2
+		}
+	}
+	solveCache.Store(key, r)
+	return r
 }
